@@ -74,6 +74,9 @@ func precConfigs(T int) [][]precLine {
 		{{"right", []int{2, 1}}},
 		{{"nonassoc", []int{2}}, {"left", []int{1}}},
 		{{"right", []int{1}}, {"nonassoc", []int{2}}},
+		// eoi (terminal 0) with a precedence of its own / inside a group
+		{{"left", []int{0}}},
+		{{"nonassoc", []int{2, 0}}, {"left", []int{1}}},
 	}
 	if T >= 3 {
 		out = append(out,
@@ -98,6 +101,13 @@ func (c *cfgCase) tm(name string) string {
 	fmt.Fprintf(&sb, "language %s(go);\n\npackage = \"scratch/%s\"\nwriteBison = true\n\n:: lexer\n\n", name, name)
 	for t := 1; t <= g.T; t++ {
 		fmt.Fprintf(&sb, "%s: /%c/\n", g.SymName(t), gramenum.TermChar(t))
+	}
+	for _, p := range c.prec {
+		for _, t := range p.Terms {
+			if t == 0 {
+				sb.WriteString("eoi:\n") // makes the implicit end-of-input terminal referable
+			}
+		}
 	}
 	sb.WriteString("\n:: parser\n\n%input ")
 	for i, in := range c.inputs {
@@ -179,6 +189,10 @@ var atoms = []shape{
 	{".mark", 0, "marker"},
 }
 
+// importAction is a semantic action that uses the documented "pkg".Name qualifier (the Go files
+// get an import block for it).
+const importAction = `{ "fmt".Println(1) }`
+
 var unary = []struct {
 	kind string
 	f    func(x string) string
@@ -251,6 +265,8 @@ type shapeCase struct {
 	other  string // second body for templated variants
 	prec   bool   // append %prec ta
 	kind   string
+	nprec  bool // the shape is the whole body of a rule of its own that carries %prec ta (nullable shapes give empty rules with a precedence)
+	pkgNT  bool // the nonterminal holding the shape is called packageDecl
 }
 
 func (c *shapeCase) tm(name string) string {
@@ -263,8 +279,23 @@ func (c *shapeCase) tm(name string) string {
 	if c.prec {
 		sb.WriteString("%left ta;\n%right tb;\n\n")
 	}
+	switch {
+	case c.nprec || c.pkgNT:
+		name := "Q"
+		if c.pkgNT {
+			name = "packageDecl"
+		}
+		sb.WriteString("S : tc " + name + " td ;\n" + name + " : " + c.body)
+		if c.nprec {
+			sb.WriteString(" %prec ta")
+		}
+		sb.WriteString(" ;\n")
+	}
 	switch c.tmpl {
 	case 0:
+		if c.nprec || c.pkgNT {
+			break
+		}
 		sb.WriteString("S : tc " + c.body + " td")
 		if c.prec {
 			sb.WriteString(" %prec ta")
@@ -293,6 +324,12 @@ func (c *shapeCase) desc() string {
 	if c.prec {
 		s += " %prec"
 	}
+	if c.nprec {
+		s += " (own rule with %prec)"
+	}
+	if c.pkgNT {
+		s += " (in nonterminal packageDecl)"
+	}
 	return s
 }
 
@@ -302,8 +339,9 @@ func (c *shapeCase) desc() string {
 type genCase struct {
 	cfg *cfgCase
 	shp *shapeCase
-	tmt string // replay: literal text with @NAME@
+	tmt string // replay / name family: literal text with @NAME@
 	dsc string
+	fam string
 }
 
 func (c *genCase) tm(name string) string {
@@ -335,6 +373,9 @@ func (c *genCase) family() string {
 			return "B-template"
 		}
 		return "B"
+	}
+	if c.fam != "" {
+		return c.fam
 	}
 	return "file"
 }
@@ -385,6 +426,22 @@ func cfgCases(scope gramenum.Scope, maxGrammars int, nprec int) []*genCase {
 			if len(g.Rules) > 1 {
 				add(prec, map[int]int{len(g.Rules) - 1: firstT, 0: lastT}, in)
 			}
+			// %prec naming a terminal of the rule itself: its first terminal and its last terminal
+			// (Bison and lalr.resolvePrec take the rule's precedence from the last one), on the
+			// first rule that has two different terminals
+			for ri, r := range g.Rules {
+				var ts []int
+				for _, s := range r.RHS {
+					if s <= g.T {
+						ts = append(ts, s)
+					}
+				}
+				if len(ts) >= 2 && ts[0] != ts[len(ts)-1] {
+					add(prec, map[int]int{ri: ts[0]}, in)
+					add(prec, map[int]int{ri: ts[len(ts)-1]}, in)
+					break
+				}
+			}
 		}
 		k++
 		return true
@@ -408,6 +465,19 @@ func shapeCases(level int) []*genCase {
 	}
 	for _, s := range l1 {
 		add(&shapeCase{body: s.text, kind: s.kind, prec: true})
+	}
+	for _, s := range l1 {
+		add(&shapeCase{body: s.text, kind: s.kind, prec: true, nprec: true})
+	}
+	// actions with a quoted import, at the end of a rule and in the middle, also inside a
+	// nonterminal whose name starts with "package"
+	for _, body := range []string{"ta " + importAction, "ta " + importAction + " tb", "N " + importAction, "(ta " + importAction + ")+", "ta? " + importAction} {
+		add(&shapeCase{body: body, kind: "action-with-import"})
+		add(&shapeCase{body: body, kind: "action-with-import", pkgNT: true})
+		add(&shapeCase{body: body, kind: "action-with-import", events: true, pkgNT: true})
+	}
+	for _, body := range []string{"ta { act() }", "ta { act() } tb"} {
+		add(&shapeCase{body: body, kind: "action", pkgNT: true})
 	}
 	// depth 2: a unary constructor over every level-1 shape
 	for _, u := range unary {
@@ -464,15 +534,32 @@ func shapeCases(level int) []*genCase {
 	return out
 }
 
+// nameCases: terminal names x nonterminal names from a small alphabet of spellings whose IDs / names
+// can coincide (terminals are exported by ID, nonterminals by name).
+func nameCases() []*genCase {
+	terms := []string{"a_b", "'a'", "ab", "'+'", "x1", "A_B"}
+	nts := []string{"A_B", "CHAR_A", "AB", "PLUS", "X1", "Ab", "a_b", "CharA", "Plus"}
+	var out []*genCase
+	for _, t := range terms {
+		for _, n := range nts {
+			tm := "language @NAME@(go);\n\npackage = \"scratch/@NAME@\"\nwriteBison = true\n\n:: lexer\n\n" + t + ": /x/\ntq: /q/\n\n:: parser\n\n%input S;\n\n%left tq;\n\nS : " + n + " tq | S " + t + " %prec tq ;\n" + n + " : " + t + " ;\n"
+			out = append(out, &genCase{tmt: tm, dsc: "N: terminal " + t + ", nonterminal " + n, fam: "N"})
+		}
+	}
+	return out
+}
+
 func buildCases(tier string) []*genCase {
 	var out []*genCase
 	if tier == "quick" {
 		out = append(out, cfgCases(gramenum.Scope{N: 1, T: 2, R: 2, K: 3, Reduced: true}, 1<<30, 3)...)
+		out = append(out, nameCases()...)
 		out = append(out, shapeCases(0)...)
 		out = append(out, cfgCases(gramenum.Scope{N: 2, T: 2, R: 3, K: 2, Reduced: true}, 150, 2)...)
 		out = append(out, cfgCases(gramenum.Scope{N: 1, T: 3, R: 3, K: 3, Reduced: true}, 100, 2)...)
 	} else {
 		out = append(out, cfgCases(gramenum.Scope{N: 1, T: 2, R: 2, K: 3, Reduced: true}, 1<<30, 100)...)
+		out = append(out, nameCases()...)
 		out = append(out, shapeCases(1)...)
 		out = append(out, cfgCases(gramenum.Scope{N: 1, T: 2, R: 3, K: 3, MinR: 3, Reduced: true}, 1<<30, 3)...)
 		out = append(out, cfgCases(gramenum.Scope{N: 2, T: 2, R: 3, K: 2, Reduced: true}, 3000, 2)...)
@@ -688,6 +775,12 @@ func checkY(g *grammar.Grammar, text string) (key, what string) {
 	for _, t := range y.Tokens {
 		decl[t]++
 	}
+	if inPrec[0] { // eoi with a precedence is declared by its precedence line
+		if decl[g.Syms[0].ID] != 1 {
+			return "token-declarations:duplicate", fmt.Sprintf("eoi (%s) has a precedence and is declared %d times", g.Syms[0].ID, decl[g.Syms[0].ID])
+		}
+		delete(decl, g.Syms[0].ID)
+	}
 	for i := 1; i < g.NumTokens; i++ {
 		id := g.Syms[i].ID
 		if decl[id] != 1 {
@@ -701,6 +794,23 @@ func checkY(g *grammar.Grammar, text string) (key, what string) {
 			class = "eoi-declared"
 		}
 		return "token-declarations:" + class, fmt.Sprintf("%s is declared in the .y but is not a terminal that needs a declaration", id)
+	}
+	// symbol spelling: terminals are printed by ID and nonterminals by name; two symbols that are
+	// spelled alike make the listed rules ambiguous (Bison would read them as one symbol)
+	spelled := map[string]int{}
+	for i := range g.Syms {
+		t := symText(g, i)
+		if j, ok := spelled[t]; ok {
+			class := "two-nonterminals"
+			if j < g.NumTokens {
+				class = "terminal-id-equals-nonterminal-name"
+				if i < g.NumTokens {
+					class = "two-terminals"
+				}
+			}
+			return "symbol-spelling-collision:" + class, fmt.Sprintf("%s (symbol %d) and %s (symbol %d) are both printed as %q in the .y", g.Syms[j].Name, j, g.Syms[i].Name, i, t)
+		}
+		spelled[t] = i
 	}
 	// rules
 	rules := g.Parser.Rules
